@@ -164,8 +164,8 @@ def C05_type_roundtrip_full : Prop :=
 
 /-- **types**: `resolve (parse (print t)) = t` on the fragment.  `WFTy env t`: bounds are Int64 with lo ≤ hi, Float bounds
     satisfy `FloatIO` and min ≤ max, names are
-    core type names, regexp sources are representable and compile, a case-insensitive Enum holds lower-case ASCII
-    values, a Variant does not have exactly one member (`Variant[T]` *is* `T`), and an exact-value String occurs only
+    core type names, regexp sources are representable and compile, a case-insensitive Enum holds values that `strings.ToLower`
+    (`lowerStr`: Go's simple case mapping over the regenerated `unicode.CaseRanges` table) leaves unchanged, a Variant does not have exactly one member (`Variant[T]` *is* `T`), and an exact-value String occurs only
     directly inside Optional / NotUndef (elsewhere it prints as plain String — the property's stated exception); a Struct
     member has a non-empty name (its key may or may not be optional, its value type may or may not accept `undef`: all
     four combinations are normal forms, see `C05_struct_key_forms`). -/
@@ -334,6 +334,15 @@ theorem C05_runtime_pattern_without_name :
   simp only [resolve_tname, List.isEmpty_cons, Bool.false_eq_true, if_false, exprsOf, exprOf, resolveArgs, resolveArg,
     resolveArg_ty, hr, Option.map, Option.bind]
   simp [createK, runtimeCreate]
+
+/-- a case-insensitive Enum with non-ASCII values: `strings.ToLower` is Go's simple case mapping (regenerated table), e.g.
+    `É` ↦ `é`; values that are their own lower case are in normal form and round-trip -/
+example : lowerStr ['É', 'c', 'K'] = ['é', 'c', 'k'] := by decide +kernel
+example : WFTy envEx (.enum [['é', 'c'], ['ß']] true) := by
+  simp only [WFTy, envEx]
+  decide +kernel
+example : parseType envEx (syms (printTy (.enum [['é', 'c'], ['ß']] true))) = some (.enum [['é', 'c'], ['ß']] true) :=
+  C05_type_roundtrip_partial envEx _ (by simp only [WFTy, envEx]; decide +kernel)
 
 /-- the four key forms of a Struct member: optional key + value accepting `undef` and required key + value refusing it
     print the bare name; the other two need `Optional['n']` / `NotUndef['n']` -/
